@@ -112,7 +112,7 @@ struct RunCtx : KernelClient {
 	std::string reg(int c, int *ln = nullptr) { char *p = ed.reg_get(c, ln); return p ? p : ""; }
 	std::string step_output() { return K.out_stream.substr(out_mark < K.out_stream.size() ? out_mark : K.out_stream.size()); }
 	std::string file(const std::string &p, bool *exists = nullptr) {
-		auto it = K.fs.find(p);
+		auto it = K.fs.find(K.real(p));
 		if (exists) *exists = it != K.fs.end();
 		return it != K.fs.end() ? it->second.data : "";
 	}
